@@ -376,6 +376,7 @@ func gen(tier string, r *lib.Rand, emit func(string)) {
 	}
 	genHist(thorough, nrand, r, emit)
 	genBhist(thorough, nrand, r, emit)
+	genShapes(thorough, nrand, r, emit)
 }
 
 // dedup removes repeated values from an ascending list (the harness's own code).
@@ -568,6 +569,49 @@ func call(c string) (line string, mutated string) {
 		return "ok " + lib.HexList(vecList(verifhook.BigvectorNewBasis(lib.Atoi(f[1]), lib.Atoi(f[2])))), ""
 	case "basisidx":
 		return "ok " + hx(verifhook.BigvectorNewBasis(lib.Atoi(f[1]), lib.Atoi(f[2])).Idx(lib.Atoi(f[3]))), ""
+	case "indexat", "containsat", "containssortedat", "insertat":
+		l := shaped(f[2], f[3])
+		lsts = append(lsts, l)
+		n := l[lib.Atoi(f[1])]
+		snap()
+		switch f[0] {
+		case "indexat":
+			line = fmt.Sprintf("ok %d", verifhook.BigintsIndex(n, l))
+		case "containsat":
+			line = "ok " + lib.Bool(verifhook.BigintsContains(n, l))
+		case "containssortedat":
+			line = "ok " + lib.Bool(verifhook.BigintsContainsSorted(n, l))
+		default:
+			got := verifhook.BigintsInsertSortedUnique(l, n)
+			line = "ok " + lib.HexList(got)
+			for i := range got {
+				got[i] = big.NewInt(424242)
+			}
+		}
+	case "minmaxat":
+		l := shaped(f[3], f[4])
+		lsts = append(lsts, l)
+		snap()
+		mn, mx := verifhook.BigintMinMax(l[lib.Atoi(f[1])], l[lib.Atoi(f[2])])
+		line = "ok " + hx(mn) + " " + hx(mx)
+	case "mergeat", "concatat":
+		l := shaped(f[2], f[3])
+		m := l // mode 0: the same slice twice
+		if f[1] == "1" {
+			m = append([]*big.Int(nil), l...) // mode 1: another slice holding the same objects
+		}
+		lsts = append(lsts, l, m)
+		snap()
+		var got []*big.Int
+		if f[0] == "mergeat" {
+			got = verifhook.BigintsMergeUnique(l, m)
+		} else {
+			got = verifhook.BigintsConcat(l, m)
+		}
+		line = "ok " + lib.HexList(got)
+		for i := range got {
+			got[i] = big.NewInt(424242)
+		}
 	case "vhist":
 		return runVhist(f[1]), ""
 	case "lhist":
@@ -1345,6 +1389,132 @@ func genBhist(thorough bool, nrand int, r *lib.Rand, emit func(string)) {
 	}
 }
 
+// ---- argument identity shapes ----
+// A list is given by its values plus an id per position: positions with the same id hold the
+// SAME *big.Int object. "<fn>at j list ids" passes the very object stored at position j as the
+// integer argument (a later duplicate, an object shared by several positions, ...). The
+// specification only speaks about values, so must the implementation.
+
+func shaped(listField, idsField string) []*big.Int {
+	vals := lib.ParseHexList(listField)
+	ids := lib.ParseIntList(idsField)
+	if len(ids) != len(vals) {
+		panic("harness: shape length")
+	}
+	objs := map[int]*big.Int{}
+	out := make([]*big.Int, len(vals))
+	for i := range vals {
+		if o, ok := objs[ids[i]]; ok {
+			if o.Cmp(vals[i]) != 0 {
+				panic("harness: shape shares unequal values")
+			}
+			out[i] = o
+		} else {
+			objs[ids[i]] = vals[i]
+			out[i] = vals[i]
+		}
+	}
+	return out
+}
+
+// idShapes: all objects distinct; one object per value; a random mixture.
+func idShapes(r *lib.Rand, vals []*big.Int) []string {
+	n := len(vals)
+	distinct, byval, mixed := make([]int, n), make([]int, n), make([]int, n)
+	for i := range vals {
+		distinct[i] = i
+		byval[i] = i
+		for j := 0; j < i; j++ {
+			if vals[j].Cmp(vals[i]) == 0 {
+				byval[i] = byval[j]
+				break
+			}
+		}
+		mixed[i] = i
+		if r.Bool() {
+			mixed[i] = byval[i]
+		}
+	}
+	out := []string{lib.IntList(distinct)}
+	for _, s := range []string{lib.IntList(byval), lib.IntList(mixed)} {
+		dup := false
+		for _, o := range out {
+			dup = dup || o == s
+		}
+		if !dup {
+			out = append(out, s)
+		}
+	}
+	return out
+}
+
+func genShapes(thorough bool, nrand int, r *lib.Rand, emit func(string)) {
+	perList := func(l []*big.Int) {
+		e := lib.HexList(l)
+		for _, ids := range idShapes(r, l) {
+			for j := range l {
+				emit(fmt.Sprintf("indexat %d %s %s", j, e, ids))
+				emit(fmt.Sprintf("containsat %d %s %s", j, e, ids))
+				if isSorted(l) {
+					emit(fmt.Sprintf("containssortedat %d %s %s", j, e, ids))
+				}
+				if isSD(l) {
+					emit(fmt.Sprintf("insertat %d %s %s", j, e, ids))
+				}
+				for i := 0; i <= j; i++ {
+					if len(l) <= 3 || i == j || l[i].Cmp(l[j]) == 0 {
+						emit(fmt.Sprintf("minmaxat %d %d %s %s", i, j, e, ids))
+						emit(fmt.Sprintf("minmaxat %d %d %s %s", j, i, e, ids))
+					}
+				}
+			}
+			if isSD(l) {
+				emit(fmt.Sprintf("mergeat 0 %s %s", e, ids))
+				emit(fmt.Sprintf("mergeat 1 %s %s", e, ids))
+			}
+			if len(l) <= 3 {
+				emit(fmt.Sprintf("concatat 0 %s %s", e, ids))
+				emit(fmt.Sprintf("concatat 1 %s %s", e, ids))
+			}
+		}
+	}
+	maxlen := 4
+	if thorough {
+		maxlen = 6
+	}
+	allLists([]int64{-1, 0, 2}, maxlen, nil, func(l []int64) {
+		bs := make([]*big.Int, len(l))
+		for i, v := range l {
+			bs[i] = big.NewInt(v)
+		}
+		perList(bs)
+	})
+	allLists([]int64{0, 1, 2, 3, 4, 5}, 6, func(prev, v int64, _ bool) bool { return prev < v }, func(l []int64) {
+		if len(l) > maxlen {
+			bs := make([]*big.Int, len(l))
+			for i, v := range l {
+				bs[i] = big.NewInt(v)
+			}
+			perList(bs)
+		}
+	})
+	for t := 0; t < nrand; t++ { // multi-limb values, many duplicates, sometimes ascending
+		n := r.Range(1, 8)
+		l := make([]*big.Int, n)
+		for j := range l {
+			if j > 0 && r.Chance(1, 2) {
+				l[j] = new(big.Int).Set(l[r.Intn(j)])
+			} else {
+				l[j] = r.Bits(r.Range(1, 130))
+			}
+		}
+		if r.Chance(1, 3) {
+			l = sortedInts(l)
+		}
+		perList(l)
+	}
+}
+
 // ---- oracle: the mathematical definitions, written independently ----
 
 func isSD(l []*big.Int) bool {
@@ -1741,6 +1911,50 @@ func oracle(c, res string) string {
 		if res != want {
 			return "a register does not hold its mathematical value at the end: want " + want
 		}
+	case "indexat", "containsat", "containssortedat", "insertat":
+		l := lib.ParseHexList(f[2])
+		x := l[lib.Atoi(f[1])]
+		first := 0
+		for l[first].Cmp(x) != 0 {
+			first++
+		}
+		switch f[0] {
+		case "indexat":
+			if payload != fmt.Sprint(first) {
+				return "index is not the first occurrence of the value (the argument is the object at a later position)"
+			}
+		case "containsat":
+			if payload != "1" {
+				return "contains false for an element of the list"
+			}
+		case "containssortedat":
+			if isSorted(l) && payload != "1" {
+				return "containssorted false for an element of a sorted list"
+			}
+		case "insertat":
+			if isSD(l) && !lib.EqualInts(lib.ParseHexList(payload), l) {
+				return "inserting an element of the list changed its contents"
+			}
+		}
+	case "minmaxat":
+		l := lib.ParseHexList(f[3])
+		x, y := l[lib.Atoi(f[1])], l[lib.Atoi(f[2])]
+		if x.Cmp(y) > 0 {
+			x, y = y, x
+		}
+		if payload != hx(x)+" "+hx(y) {
+			return "minmax wrong"
+		}
+	case "mergeat":
+		l := lib.ParseHexList(f[2])
+		if isSD(l) && !lib.EqualInts(lib.ParseHexList(payload), l) {
+			return "merging a sorted distinct list with itself is not that list"
+		}
+	case "concatat":
+		l := lib.ParseHexList(f[2])
+		if !lib.EqualInts(lib.ParseHexList(payload), append(lib.CloneInts(l), l...)) {
+			return "concat is not xs followed by xs"
+		}
 	case "bhist":
 		st := refBhist(f[1])
 		if st.unspec {
@@ -1793,6 +2007,15 @@ func neighbours(c string, r *lib.Rand, emit func(string)) {
 		for _, i := range ins {
 			if !strings.HasPrefix(i, "sort:") && !strings.HasPrefix(i, "scribble:") {
 				emit(f[0] + " " + f[1] + ";" + i)
+			}
+		}
+		return
+	}
+	if strings.HasSuffix(f[0], "at") && f[0] != "minmaxat" && f[0] != "mergeat" && f[0] != "concatat" {
+		l := lib.ParseHexList(f[2]) // every position as the argument, every identity shape
+		for _, ids := range idShapes(r, l) {
+			for j := range l {
+				emit(fmt.Sprintf("%s %d %s %s", f[0], j, f[2], ids))
 			}
 		}
 		return
